@@ -397,6 +397,33 @@ def initial_state_of(ctx, self_str):
     return tuple(x[1] for x in fl), path
 
 
+def other_constructors(ctx, self_str, new_path):
+    """Every other argument-less function that produces a value of this type (Default::default, ...):
+    [(path, state tuple or None if not constant)].  A decoder obtained from any of them must start in the
+    same condition as one from new()."""
+    out = []
+    short = self_str.split('::')[-1]
+    for f in ctx.facts['fns']:
+        if f['path'] == new_path or f.get('derived') or f.get('kind') == 'Closure':
+            continue
+        if f['body']['arg_count'] != 0:
+            continue
+        o = f.get('output') or {}
+        if o.get('k') != 'adt' or o.get('path', '').split('::')[-1] != short:
+            continue
+        eng = Engine(ctx.prog)
+        try:
+            leaves = eng.run(f['path'])
+            if len(leaves) == 1 and leaves[0].kind == 'return':
+                fl = flat_scalars(leaves[0].ret)
+                out.append((f['path'], tuple(x[1] for x in fl) if all(x[0] == 'c' for x in fl) else None, f['sp']))
+            else:
+                out.append((f['path'], None, f['sp']))
+        except Undecided:
+            out.append((f['path'], None, f['sp']))
+    return out
+
+
 def show_res(ctx, res):
     if res[0] == 'none':
         return 'Ok(None)'
